@@ -28,6 +28,17 @@ CLAIMED.update({
    note="Interpreter schedules are a fixed function of (run seed, site, iteration) so the dry-run twin, the faulted stepper and the fresh stepper see the same schedule. X3/X4 are skipped (counted) when the fault-free step is ill-defined. Which phase is current after the fault is deliberately not a C11 matter (C01 checks the step protocol)."),
 })
 
+CLAIMED.update({
+ "C05": dict(engine="E-sched", level="exploration", design_ref="DESIGN.md §4 E-sched / C05",
+   technique="deterministic simulation: simulator-owned container orders (statement storage, dependency-set iteration, phase dict) around the real lowering + generic walker with a recording back end; leaf-trace invariants and equality across orders",
+   text="Seeded phases (hand-written graphs over all statement kinds with literal/flag/negated/conjunctive guards and 0..3 loops, plus builder-produced phases) are lowered by the real create_ast_from_phase under 2..4 tape-chosen storage orders and consumed through the real StructuredCodeGenerator walker by a recording back end; the emitted program is executed under 1..4 guard/bound valuations. Checked: exactly the non-Nop statements whose guard holds run, once per declared iteration vector (L1/L2), every transitive dependency precedes its dependents (L3), tree and trace are identical across storage orders (L4), lowering never raises on a verified phase (L5).",
+   note="Guard flags of hand-written phases are not assigned inside the phase (static valuation); builder-made loop bounds that cannot be evaluated statically get a fixed value per distinct expression on both sides of the comparison."),
+ "C16": dict(engine="E-sched", level="exploration", design_ref="DESIGN.md §4 E-sched / C16",
+   technique="deterministic simulation: the two fused methods are two parties on one store; the simulator owns their interleaving (linear extensions of the fused graph), the renaming predicate and the initial store; structural invariants at fuse time and per-origin equivalence with solo runs",
+   text="Pairs of seeded builder programs with overlapping temporaries, statement ids, loop counters and condition flags, shared read-only state and disjoint persistent writes are fused by the real fuse_two_dags (default predicate, a drawn subset predicate, or rename-nothing); agreement checks (initial phase, default transitions, one-sided phases) and structure (unique ids, dependency edges mapped one-to-one, exactly the requested names renamed, persistent names untouched by default, verify_code accepts) are checked, then 3..24 interleavings x 1..2 stores are executed through the real interpreter callbacks and each method's persistent results and events must equal its solo run.",
+   note="Execution equivalence is checked for the default predicate only (a custom predicate may legitimately share temporaries). Origin of fused statements is taken from list position (first method's statements come first)."),
+})
+
 NOT_APPLICABLE = {
  "C06": "pure tree->tree function (simplify_ast) quantified over trees x truth assignments: no schedule, history, fault or configuration for a simulator to own; reached only indirectly through C01/C05",
  "C07": "rewriting passes are pure structured-program->structured-program functions run top to bottom; nothing to schedule or inject; reached only indirectly through C03",
